@@ -146,7 +146,15 @@ RsaDecDef(e) ==
     IF Len(e.c) # k THEN Bad                        \* length check
     ELSE IF ~BLt(c, N) THEN Bad                     \* ciphertext representative out of range
     ELSE RsaDecOf(e, c)
-RsaDecOk(e) == e.mdl = HLen /\ RsaKeyOk(e) /\ DecVerdict(e, RsaDecDef(e), 0)
+(* A representative c >= n of the right length: RFC 8017 refuses it, the library reduces it.  The property *)
+(* names padding, length and authentication only, so both outcomes are admitted: a refusal, or the verdict   *)
+(* of the definition on c mod n.                                                                          *)
+RsaDecOk(e) ==
+    LET N == RsaN(e)  k == RsaK(e)  c == BFromBE(e.c) IN
+    /\ e.mdl = HLen /\ RsaKeyOk(e)
+    /\ IF Len(e.c) = k /\ ~BLt(c, N) /\ e.honest = 0
+       THEN IF DecVerdict(e, Bad, 0) THEN TRUE ELSE DecVerdict(e, RsaDecOf(e, BMod(c, N)), 0)
+       ELSE DecVerdict(e, RsaDecDef(e), 0)
 
 RsaEncOk(e) ==
     LET N == RsaN(e)  k == RsaK(e)  c == BFromBE(e.out) IN
@@ -490,12 +498,8 @@ AllZero(s) == \A i \in 1..Len(s) : s[i] = 0
 CoreKnownKey(e) ==
     CASE e.op = "rsa_dec" ->
             LET N == RsaN(e)  k == RsaK(e)  c == BFromBE(e.c) IN
-            \* a ciphertext representative c >= n is reduced instead of refused (RFC 8017 5.1.2 / 7.1.2 step 2)
-            IF /\ RsaKeyOk(e) /\ Len(e.c) = k /\ ~BLt(c, N) /\ e.honest = 0
-               /\ DecVerdict(e, RsaDecOf(e, BMod(c, N)), 0) /\ Succ(e)
-            THEN "C06-rsa-ciphertext-not-below-modulus"
             \* PKCS#1 v1.5: a padding string shorter than 8 bytes is accepted (RFC 8017 7.2.2 step 3)
-            ELSE IF /\ e.pad = "pkcs1" /\ RsaKeyOk(e) /\ Len(e.c) = k /\ BLt(c, N) /\ e.honest = 0 /\ Succ(e)
+            IF /\ e.pad = "pkcs1" /\ RsaKeyOk(e) /\ Len(e.c) = k /\ BLt(c, N) /\ e.honest = 0 /\ Succ(e)
                     /\ LET EM == BToBE(BModExp(c, BnVal(e.D), N), k)
                            j == FirstZero(EM, 3)
                        IN  /\ EM[1] = 0 /\ EM[2] = 2 /\ j # 0 /\ j - 3 < 8 /\ j < k
